@@ -30,6 +30,94 @@ def key(x):
     return repr(x)
 
 
+ITER_STRIP = ("Vec::iter", "slice::iter", "IntoIterator::into_iter", "Vec::into_iter", "Iterator::cloned", "Iterator::copied", "IndexSet::iter", "IndexSet::into_iter",
+              "Iterator::collect", "Vec::to_vec", "slice::to_vec", "Clone::clone", "Vec::clone", "Iterator::rev_not", "FromIterator::from_iter")
+EMPTY_VEC = ("call", "Vec::new", ())
+
+
+def _strip_iter(t):
+    while isinstance(t, tuple) and t:
+        if t[0] == "call" and (t[1] in ITER_STRIP or t[1].split("::")[-1] in ("iter", "into_iter", "cloned", "copied", "collect", "to_vec")) and len(t[2]) == 1:
+            t = t[2][0]
+        elif t[0] == "call" and t[1].endswith("::drain") and len(t[2]) == 2 and t[2][1] == ("ctor", "RangeFull", ()):
+            t = t[2][0]
+        elif t[0] == "acc":
+            t = t[1]
+        else:
+            break
+    return t
+
+
+def _comp(t):
+    """(element) if t is a canonical comprehension `upd(acc(empty), push, (X,))`, else None"""
+    t = _strip_iter(t)
+    if isinstance(t, tuple) and t and t[0] == "upd" and t[2] == "push" and len(t[3]) == 1:
+        init = _strip_iter(t[1])
+        if init in (EMPTY_VEC, ("list", ())) or (isinstance(init, tuple) and init[:2] == ("call", "Vec::with_capacity")):
+            return t[3][0]
+    return None
+
+
+def _elem(S):
+    """the element produced by iterating the sequence expression S (canonical markers: ('at', L) element of list L, ('idx', L) its position)"""
+    S = _strip_iter(S)
+    if isinstance(S, tuple) and S and S[0] == "call" and S[1] == "Iterator::enumerate" and len(S[2]) == 1:
+        L = _strip_iter(S[2][0])
+        return ("list", (("idx", L), _elem(L)))
+    if isinstance(S, tuple) and S and S[0] == "call" and S[1] == "Iterator::zip" and len(S[2]) == 2:
+        return ("list", (_elem(S[2][0]), _elem(S[2][1])))
+    c = _comp(S)
+    if c is not None:
+        return c
+    return ("at", S)
+
+
+def _apply(F, e):
+    from . import sym
+    if F[0] == "closure":
+        names = F[1]
+        if len(names) == 1 and "/" not in names[0]:
+            return canon_iter(sym.subst(F[2], {names[0]: e}))
+        parts = names[0].split("/") if len(names) == 1 else list(names)
+        if e[0] == "list" and len(e[1]) == len(parts):
+            return canon_iter(sym.subst(F[2], dict(zip(parts, e[1]))))
+        return None
+    if F[0] == "fn":
+        return ("call", F[1] if "::" in F[1] else F[1], (e,))
+    if F[0] == "ctorfn":
+        return ("ctor", F[1], (("0", e),))
+    return None
+
+
+def canon_iter(t):
+    """Loops that push and iterator chains (map / zip / enumerate / collect) to one form: `upd(acc(Vec::new()), push, (X,))` where X refers
+    to the current element of list L as ('at', L) and to its position as ('idx', L)."""
+    if not isinstance(t, tuple) or not t:
+        return t
+    if t[0] == "closure":
+        return t
+    t = tuple(canon_iter(x) for x in t)
+    if t[0] == "proj" and isinstance(t[1], tuple) and t[1] and t[1][0] == "list":
+        e, path = t[1], t[2]
+        while path and isinstance(e, tuple) and e and e[0] == "list" and path[0][0] == "tuple" and int(path[0][1]) < len(e[1]):
+            e, path = e[1][int(path[0][1])], path[1:]
+        return e if not path else ("proj", e, path)
+    if t[0] == "each":
+        return _elem(t[1])
+    if t[0] == "call" and t[1] == "Iterator::map" and len(t[2]) == 2:
+        body = _apply(t[2][1], _elem(t[2][0]))
+        if body is not None:
+            return ("upd", ("acc", EMPTY_VEC), "push", (body,))
+    if t[0] == "call" and t[1] in ("Iterator::collect", "FromIterator::from_iter") and len(t[2]) == 1 and _comp(t[2][0]) is not None:
+        return t[2][0]
+    if t[0] == "at":
+        c = _comp(t[1])
+        if c is not None:
+            return c
+        return ("at", _strip_iter(t[1]))
+    return t
+
+
 class NF:
     def __init__(self):
         self.fresh = []   # (prefix, count term, taken-set term) of every choose_fresh_variable_names call met
@@ -65,8 +153,20 @@ class NF:
             base = self.strip(t[1])
             f = self._fresh(base)
             if f:
+                i = self.strip(t[2])
+                if isinstance(i, tuple) and i and i[0] == "idx" and f[1] == ("call", "Vec::len", (self.gen(i[1]),)):
+                    # the i-th of as many fresh names as the list has elements, i being the position in that list
+                    return ("fresh", f[0], ("len", self.gen(i[1])), "ith")
                 return ("fresh", f[0], f[1], ("nth", self.gen(t[2])))
             return ("nth", self.gen(base), self.gen(t[2]))
+        if t[0] == "at":
+            f = self._fresh(self.strip(t[1]))
+            if f:
+                n = f[1]
+                if isinstance(n, tuple) and n[:2] == ("call", "Vec::len") and len(n[2]) == 1:
+                    return ("fresh", f[0], ("len", n[2][0]), "ith")
+                return ("fresh", f[0], n, "ith")
+            return ("at", self.gen(t[1]))
         if t[0] == "each":
             return ("each", self.gen(t[1]))
         if t[0] == "fieldof" and t[2] == "0":
@@ -96,7 +196,7 @@ class NF:
             return ("list", tuple(self.gen(a) for a in t[1]))
         if t[0] == "index":
             return ("nth", self.gen(t[1]), self.gen(t[2]))
-        if t[0] in ("each", "acc"):
+        if t[0] in ("each", "acc", "at", "idx"):
             return (t[0], self.gen(t[1]))
         if t[0] == "proj":
             return ("proj", self.gen(t[1]), t[2])
@@ -119,7 +219,7 @@ class NF:
             # a whole fol::Variable passed through
             root = t[1]
             return ("var", ("place", root + ".name"), ("place", root + ".sort"))
-        if t[0] == "each":
+        if t[0] in ("each", "at"):
             return ("var", ("each-name", self.gen(t[1])), ("each-sort", self.gen(t[1])))
         raise AnalysisGap("not a variable template: %r" % (t,))
 
@@ -167,7 +267,7 @@ class NF:
 
     def _has_each(self, t):
         if isinstance(t, tuple):
-            if t and t[0] == "each":
+            if t and t[0] in ("each", "at", "idx"):
                 return True
             return any(self._has_each(x) for x in t)
         return False
